@@ -14,7 +14,7 @@ CAT_VARS = ["f", "g", "h", "o", "c"]
 NUM_VARS = ["x", "z", "w"]
 
 
-def make_frame(rng, n=None, factorial=False, nlev=None, cats=None, extra_cols=True):
+def make_frame(rng, n=None, factorial=False, nlev=None, cats=None, extra_cols=True, reps=None):
     """a frame with columns y, x, z, w (numeric), f, g, h (str), o (ordered), c (Categorical), k (int codes).
     factorial=True: every combination of the categorical levels of `cats` occurs (replicated)."""
     cats = cats or CAT_VARS
@@ -29,7 +29,8 @@ def make_frame(rng, n=None, factorial=False, nlev=None, cats=None, extra_cols=Tr
     lev["k"] = list(range(1, nlev["k"] + 1))
     if factorial:
         combos = list(itertools.product(*[lev[v] for v in cats]))
-        reps = rng.randint(2, 3) if len(combos) > 12 else rng.randint(5, 6)
+        if reps is None:
+            reps = rng.randint(2, 3) if len(combos) > 12 else rng.randint(5, 6)
         rows = combos * reps
         rng.shuffle(rows)
         n = len(rows)
